@@ -744,6 +744,20 @@ def t_sets_of_types():
     kd = set(map(type, d.keys()))
     ke = set(map(type, e.keys()))
     return (len(kd), len(ke), kd <= ORDERABLE, ke <= ORDERABLE, len(kd) == 1 and kd <= ORDERABLE, set(map(type, [1j, 2j])) <= ORDERABLE, type(1) in ORDERABLE)
+def t_chainmap():
+    from collections import ChainMap
+    base = {'a': 1, 'b': 2}
+    cm = ChainMap(base)
+    cm = cm.new_child({'b': 20})
+    cm = cm.new_child({'c': 3})
+    folded = {}
+    for layer in cm.maps:
+        folded.update(layer)
+    right = {}
+    for layer in reversed(cm.maps):
+        right.update(layer)
+    cm['z'] = 9
+    return (cm['a'], cm['b'], cm.get('c'), cm.get('q', 0), len(cm.maps), dict(cm) == {'a': 1, 'b': 20, 'c': 3, 'z': 9}, sorted(cm), folded, right, 'z' in cm.maps[0], len(cm), {**cm} == dict(cm))
 '''
 
 
